@@ -99,6 +99,7 @@ def menu():
     for kind in ("returns", "yields", "receives"):
         add(kind, "gn", items=[_item("r", None)], parent="gen")
         add(kind, "gn", items=[_item("r", None, D2), _item("s", None)], parent="gen-tuples")
+        add(kind, "gn", items=[_item("r", None)], parent="gen-tuples")  # a single item takes the whole tuple
     for kind in ("raises", "warns"):
         st = "gns" if kind == "raises" else "gn"
         add(kind, st, items=[_item(None, "ValueError")])
